@@ -622,12 +622,16 @@ Proof.
   unfold c30_ok. rewrite Hm. reflexivity.
 Qed.
 
-Lemma c30_exec_lemma : forall nq progs sched fuel, c30_ok progs (exec nq progs sched fuel) = true.
+Lemma c30_exec_lemma : forall nq progs sched fuel,
+  c30_ok (all_progs progs) (exec nq progs sched fuel) = true.
 Proof.
   intros nq progs sched fuel. unfold exec.
   destruct (norm_nq_pow2 nq) as (k & Hk & ->).
-  destruct (run (Nat.ones k) sched (init progs)) as [s1 e1] eqn:E1.
-  destruct (drain_is_run (Nat.ones k) fuel (length progs) s1) as (sch & Hd). rewrite Hd.
-  pose proof (c30_all_schedules_lemma k progs (sched ++ sch) Hk) as H.
-  rewrite run_app, E1 in H. destruct (run (Nat.ones k) sch s1) as [s2 e2]. exact H.
+  set (sch0 := filter _ sched).
+  destruct (run (Nat.ones k) sch0 (init (all_progs progs))) as [s1 e1] eqn:E1.
+  destruct (drain_is_run (Nat.ones k) fuel (length progs) s1) as (sch1 & Hd1). rewrite Hd1.
+  destruct (run (Nat.ones k) sch1 s1) as [s2 e2] eqn:E2.
+  destruct (drain_is_run (Nat.ones k) fuel (S (length progs)) s2) as (sch2 & Hd2). rewrite Hd2.
+  pose proof (c30_all_schedules_lemma k (all_progs progs) (sch0 ++ sch1 ++ sch2) Hk) as H.
+  rewrite run_app, E1, run_app, E2 in H. destruct (run (Nat.ones k) sch2 s2) as [s3 e3]. exact H.
 Qed.
